@@ -129,9 +129,9 @@ pub fn structural<N: Fld>(o: &mut Outcome, solver: Solver, cfg: &Cfg, y0: &[N], 
                     want.push(t);
                     t += cfg.dtmax;
                 }
-                let r = (cfg.t1 - cfg.t0) / cfg.dtmax;
-                let near_integer = (r - r.round()).abs() <= 1e-9 * r.max(1.0);
-                let n_ok = out.items.len() == want.len() || (near_integer && (out.items.len() as i64 - want.len() as i64).abs() <= 1);
+                // (the reference accumulates exactly as the solver does, so the count is exact even when the interval
+                // is a whole number of steps and the last step time lands an ulp before the end)
+                let n_ok = out.items.len() == want.len();
                 if !n_ok {
                     o.viol(&subj, "euler-one-point-per-step-before-end", format!("{}: {} points, reference count {}", ctx(), out.items.len(), want.len()));
                 } else {
